@@ -249,7 +249,17 @@ pub struct RecStream {
     pub flush_fail: Vec<u64>,
     pub next_cost_ns: u64,
     pub yields: bool,
+    /// every `flush` call with index >= this fails (a persistently failing device)
+    pub flush_fail_from: Option<u64>,
+    /// at the start of the `next` call with this index the *writer thread* gets a scoped tracing
+    /// subscriber (a subscriber installed after the queue was built)
+    pub install_subscriber_at: Option<u64>,
+    next_calls: u64,
     flush_calls: u64,
+}
+
+thread_local! {
+    static SCOPED_SUBSCRIBER: std::cell::RefCell<Option<tracing::dispatcher::DefaultGuard>> = const { std::cell::RefCell::new(None) };
 }
 
 impl RecStream {
@@ -271,6 +281,9 @@ impl RecStream {
                 flush_fail: vec![],
                 next_cost_ns: 0,
                 yields: true,
+                flush_fail_from: None,
+                install_subscriber_at: None,
+                next_calls: 0,
                 flush_calls: 0,
             },
             ctl,
@@ -306,6 +319,15 @@ impl EntryIoStream for RecStream {
         let mut seen = Seen::default();
         entry.write(&mut seen);
         let no = self.ctl.stream_no;
+        if self.install_subscriber_at == Some(self.next_calls) && !seen.report {
+            let g = tracing::dispatcher::set_default(&tracing::Dispatch::new(QuietSubscriber));
+            SCOPED_SUBSCRIBER.with(|c| *c.borrow_mut() = Some(g));
+            self.ctl.hist.log(K::Note("writer_thread_subscriber_installed".into()));
+        }
+        if !seen.report {
+            // (the in-band report itself was decided before this call: entries only)
+            self.next_calls += 1;
+        }
         self.ctl.hist.log(K::NextBegin { stream: no, id: seen.id, report: seen.report });
         if self.yields {
             detsim::yield_point();
@@ -336,7 +358,7 @@ impl EntryIoStream for RecStream {
         }
         let idx = self.flush_calls;
         self.flush_calls += 1;
-        let ok = !self.flush_fail.contains(&idx);
+        let ok = !self.flush_fail.contains(&idx) && !self.flush_fail_from.map(|f| idx >= f).unwrap_or(false);
         self.ctl.hist.log(K::FlushEnd { stream: no, ok });
         self.ctl.flushes_done.fetch_add(1, Ordering::SeqCst);
         if ok { Ok(()) } else { Err(std::io::Error::other("scripted flush error")) }
@@ -345,6 +367,8 @@ impl EntryIoStream for RecStream {
 
 impl Drop for RecStream {
     fn drop(&mut self) {
+        // (runs on the writer thread when the queue closes the stream)
+        let _ = SCOPED_SUBSCRIBER.try_with(|c| c.borrow_mut().take());
         self.ctl.hist.log(K::StreamDrop { stream: self.ctl.stream_no });
         self.ctl.dropped.fetch_add(1, Ordering::SeqCst);
     }
